@@ -59,7 +59,9 @@ def get_state_facts(repo):
         big = [255] * 30
         for k in wide:
             big[k] = 2 ** 40 + 12345 + k
-        got_big = run(big, _Model(ay=[255] * 16, border=7, outfe=255, outfffd=255), memory128())
+        mem_big = memory128()
+        mem_big.o7ffd = 0xFF
+        got_big = run(big, _Model(ay=[255] * 16, border=7, outfe=255, outfffd=255), mem_big)
     except NotLiteral as e:
         raise FactError('skoolkit/simutils.py: get_state is not foldable (%s)' % e)
     exported = {}
@@ -85,6 +87,8 @@ def get_state_facts(repo):
         want_big = None
         if slots:
             want_big = big[slots[0]] if len(slots) == 1 else big[slots[0]] + 256 * big[slots[1]]
+        if want_big is None and at:
+            want_big = 7 if at[0] == 'border' else 255          # every hardware attribute at its largest value
         exact = want_big is None or got_big.get(key) == want_big
         exported[key] = (None, slots, at, gs.lineno, exact)
     for key in got48:
